@@ -60,14 +60,14 @@ func (c19) Cases(tier string) int {
 	if tier == "thorough" {
 		return 18000
 	}
-	return 660
+	return 2100
 }
 func (c19) RaceCases(tier string) int { return 0 }
 func (c19) Floor(tier string) int {
 	if tier == "thorough" {
 		return 6000
 	}
-	return 300
+	return 1000
 }
 
 var c19Families = []string{"A", "B", "C", "D", "E", "F", "G"}
